@@ -66,6 +66,9 @@ FAMILIES = {
                "serialize(parse-xml('<p:z xmlns:p=\"urn:q\"/>'))"],
     'format': ["format-number(1234.5, '#,##0.00')", "format-integer(12, 'w')", "format-date(xs:date('2020-02-29'), '[D1o] [MNn] [Y]')",
                "format-dateTime(current-dateTime(), '[H01]:[m01]')", "1 div 3", "sum((0.1, 0.2, 0.3))", "round-half-to-even(2.5)"],
+    'decimal': ["format-number(123456789012345678901234567890.125, '#.00')", "1 div 3.0", "avg((0.1, 0.2, 0.3333333333333333333333333333))",
+                "round-half-to-even(12345678901234567890.12345678901234567890, 15)", "xs:decimal('123456789012345678901234567890.123456789') * 3",
+                "format-number(1 div 3, '0.0000000000000000000000000000000')", "sum((0.1, 0.2, 0.3))"],
     'types': ["xs:NCName('a')", "xs:language('en-US')", "xs:date('2000-01-01') + xs:dayTimeDuration('P1D')", "1 instance of xs:integer",
               "(1, 'a') instance of xs:anyAtomicType+", "xs:QName('xs:a')", "'12' cast as xs:unsignedByte", "xs:gYearMonth('2000-02')"],
 }
